@@ -43,7 +43,7 @@ elif _calls[0].endswith('_cb'):
 else: _evalcmd = '0'
 
 G.GROUPS['RelayConsts'] = dict(
-    pre='#include <stddef.h>\n#include <proto.h>\n#include <srpc.c>\n#include <supla_esp.h>\n#include <supla_esp_cfg.h>\n#include <supla_esp_gpio.h>\n',
+    pre='#include <stddef.h>\n#include <c_types.h>\n#include <ip_addr.h>\n#include <espconn.h>\n#include <proto.h>\n#include <srpc.c>\n#include <supla_esp.h>\n#include <supla_esp_cfg.h>\n#include <supla_esp_gpio.h>\n',
     ints=[
         ('RELAY_MAX', 'RELAY_MAX_COUNT'),
         ('T2_COUNT', 'CFG_TIME2_COUNT'),
@@ -79,6 +79,7 @@ G.GROUPS['RelayConsts'] = dict(
         ('SIZE_RESULT_MSG', 'sizeof(TDS_SuplaChannelNewValueResult)'),
         ('SIZE_EXT_MSG', 'sizeof(TDS_SuplaDeviceChannelExtendedValue) - SUPLA_CHANNELEXTENDEDVALUE_SIZE + sizeof(TTimerState_ExtendedValue)'),
         ('SRPC_CHUNK', 'SRPC_BUFFER_SIZE'),
+        ('SEND_BUF', 'SEND_BUFFER_SIZE'), ('SENT_INPROGRESS', 'ESPCONN_INPROGRESS'), ('SENT_MAXNUM', 'ESPCONN_MAXNUM'),
         ('IN_SENSOR', 'INPUT_TYPE_SENSOR'), ('IN_MONO', 'INPUT_TYPE_BTN_MONOSTABLE'), ('IN_BI', 'INPUT_TYPE_BTN_BISTABLE'),
         ('IN_MOTION', 'INPUT_TYPE_MOTION_SENSOR'), ('IN_FLAG_ON_PRESS', 'INPUT_FLAG_TRIGGER_ON_PRESS'),
         # literals of the adaptive period (pattern-extracted)
